@@ -283,7 +283,7 @@ def r4_passes(ctx):
         for it in log.iterations:
             j = [hv for hv, ev in it.mapping if hv[0] == 'var' and hv[1].startswith('j@')]
             rs = [hv for hv, ev in it.mapping if hv[0] == 'var' and hv[1].startswith('rigid_slice@')]
-            pos = [hv for hv, ev in it.mapping if hv[0] == 'var' and 'iter.pos@' in hv[1]]
+            pos = [hv for hv, ev in it.mapping if hv[0] == 'var' and '.pos@' in hv[1]]
             isr = it.named('BaseRegLan::is_range')
             mk = it.named('BasePattern::make')
             ok = len(j) == 1 and len(rs) == 1 and len(pos) == 1 and len(isr) == 1 and isr[0][1][0] == ('fld', ('elem', A(0), pos[0]), 'expr')
@@ -379,7 +379,7 @@ def r4_passes(ctx):
         n_ = 0
         kinds = set()
         for it in log.iterations:
-            pos = [hv for hv, ev in it.mapping if hv[0] == 'var' and 'iter.pos@' in hv[1]]
+            pos = [hv for hv, ev in it.mapping if hv[0] == 'var' and '.pos@' in hv[1]]
             sm = it.named('BasePattern::set_match')
             ok = len(pos) == 1
             if ok and sm:
@@ -456,7 +456,7 @@ def r4_passes(ctx):
         delta = T.var('a1', 'usize')
         nb = 0
         for (p_, head, bst, bmap, valid, cur) in ip.back_states:
-            pos = [hv for hv, ev in bmap if hv[0] == 'var' and 'iter.pos@' in hv[1]]
+            pos = [hv for hv, ev in bmap if hv[0] == 'var' and '.pos@' in hv[1]]
             ws = []
             for c in bst.frames[-1].cells:
                 x = c.v
